@@ -25,7 +25,9 @@ ROOT = Path(__file__).resolve().parent.parent
 LEAN = ROOT / "lean"
 WORK = ROOT / ".work"
 REPLAYS = ROOT / "replays"
-EVIDENCE = ROOT / "evidence"
+# VERIF_EVIDENCE_DIR: used only by tools/eval_seeded.py so that runs against a deliberately broken tree do not
+# overwrite the evidence of the unchanged tree
+EVIDENCE = Path(os.environ.get("VERIF_EVIDENCE_DIR") or (ROOT / "evidence"))
 CORPUS = ROOT / "corpus"
 KNOWN = ROOT / "known_findings.jsonl"
 DRIVER = LEAN / ".lake" / "build" / "bin" / "driver"
